@@ -413,4 +413,4 @@ def _obligations():
 
 
 def obligations():
-    return _obligations() + [labels_obligation("C03"), selectors_obligation("C03"), effects_obligation("C03")]
+    return _obligations() + [constructors_obligation(['cryomotl.RelionMotl']), labels_obligation("C03"), selectors_obligation("C03"), effects_obligation("C03")]
